@@ -26,7 +26,9 @@ CLAIM = dict(
          "subspaces is C04.",
 )
 TRUSTED = [
-    "modelled: System_R.reorder (all matrices, centres), Rvectors.reorder (left/right shifts), Rvectors.cRvec_shifted, "
+    "modelled: System_R.reorder and spin_block2interlace (EVERY stored matrix - the systems carry all keys known to "
+    "system.num_cart_dim: Ham, AA, BB, CC, SS, FF, GG, OO, SA, SHA, SR, SH, SHR, rotAA, rotAAab, overlap_up_down, dV_soc_* - "
+    "and centres), Rvectors.reorder (left/right shifts), Rvectors.cRvec_shifted, "
     "Rvectors.derivative (any order); the rotation of a system is the harness helper rotate_system, itself checked "
     "against the model",
     "not modelled (oracle only): eigh, R_to_k/FFT, the formulas and calculators, run()",
@@ -34,15 +36,42 @@ TRUSTED = [
     "because wannier_centers_red passes through a matrix inverse)",
 ]
 RULE = ("corr: dyadic systems with 2-5 Wannier functions, random permutations (identity and non-involutions included), "
-        "all stored matrices incl. vector-valued ones, derivative orders 1 and 2; oracle: Hermitian systems with Ham, AA, "
+        "EVERY matrix key known to the code (19 names, ranks 0-2) compared after reorder and after "
+        "spin_block2interlace (both directions), derivative orders 1 and 2; oracle: Hermitian systems with Ham, AA, "
         "BB, CC, SS whose Wannier functions share centres in groups of sizes 1-3, random permutation, random block "
-        "unitary on the co-centred groups, and both composed; run() on FFT grids and evaluate_k at random k; the system "
+        "unitary on the co-centred groups, and both composed (permutations preferably not involutions); the systems carry "
+        "every matrix key and the integrated calculators include those consuming OO (AHC OO_uIu), FF (AHC_test, quantum "
+        "metric), SA/SHA (SHC ryoo), SR/SH/SHR (SHC qiao); run() on FFT grids and evaluate_k at random k; the system "
         "is always USED in a calculation before it is deep-copied and transformed (history: caches populated).  "
         "non-trivial = permutation is not the identity / some group has >= 2 functions; distinct = distinct "
         "(kind, seed, parameters)")
 
 LATTICES = [np.eye(3), np.diag([1.0, 2.0, 0.5]), np.array([[1, 0, 0], [0.5, 1, 0], [0, 0, 2.0]]),
             np.array([[2.0, 0, 0], [0, 1, 0.5], [0.25, 0, 1]])]
+
+
+def all_matrix_keys():
+    """every real-space matrix name the code knows (read from system.num_cart_dim) with its number of Cartesian indices"""
+    import re
+    import inspect
+    from wannierberri.system.system import num_cart_dim
+    keys = sorted(set(re.findall(r'"([A-Za-z_0-9]+)"', inspect.getsource(num_cart_dim))))
+    return {k: num_cart_dim(k) for k in keys}
+
+
+def add_all_matrices(rs, s, dyadic=False):
+    """store a random matrix (X(-R) = X(R)^dagger) under every known key the system does not have yet"""
+    nw = s.num_wann
+    for key, rank in all_matrix_keys().items():
+        if s.has_R_mat(key):
+            continue
+        shape = (s.rvec.nRvec, nw, nw) + (3,) * rank
+        X = rs.uniform(-1, 1, shape) + 1j * rs.uniform(-1, 1, shape)
+        X = 0.5 * (X + s.rvec.conj_XX_R(X))
+        if dyadic:
+            X = np.round(X.real * 8) / 8 + 1j * np.round(X.imag * 8) / 8
+        s.set_R_mat(key, X)
+    return s
 
 
 def rotate_system(s, U):
@@ -59,6 +88,7 @@ def dyadic_system(rs, nw, lattice, centers):
         for key in list(s._XX_R):
             X = s.get_R_mat(key)
             s._XX_R[key] = np.round(X.real * 8) / 8 + 1j * np.round(X.imag * 8) / 8
+        add_all_matrices(rs, s, dyadic=True)
     return s
 
 
@@ -113,10 +143,12 @@ def corr(ctx):
             cenF = ratss([[F(x) for x in r] for r in cen_new])
             for iR in rng.sample(range(nR), min(nR, 3)):
                 R = [int(x) for x in s.rvec.iRvec[iR]]
-                for key in ("Ham", "AA", "SS"):
+                if sorted(s._XX_R) != sorted(s2._XX_R):
+                    ctx.fail("reorder changed the set of stored matrices", dict(case, before=sorted(s._XX_R), after=sorted(s2._XX_R)))
+                for key in sorted(s._XX_R):
                     X = s.get_R_mat(key)[iR]
                     X2 = s2.get_R_mat(key)[iR]
-                    comps = [()] if X.ndim == 2 else [(rng.randrange(3),)]
+                    comps = [tuple(rng.randrange(3) for _ in range(X.ndim - 2))]
                     for cmp_ in comps:
                         a, b = fr_mat(X[(slice(None), slice(None)) + cmp_])
                         add(f"reorder {nw} {ints(p)} {ratss(a)} {ratss(b)}", "exact",
@@ -132,6 +164,31 @@ def corr(ctx):
                 d2 = s2.rvec.derivative(d1)
                 add(f"deriv {nw} {latF} {rats(R)} {cenF} {ratss(a)} {ratss(b)} {ints(ax2)}", "close",
                     d2[iR][:, :, ax2[0], ax2[1]], dict(case, R=R, axes=ax2))
+        # spin_block2interlace / spin_interlace2block: the same treatment of every stored matrix
+        if nw % 2 == 0:
+            back = rng.random() < 0.5
+            s4 = copy.deepcopy(s)
+            with ctx.attempt("System_R.spin_block2interlace", dict(case, backward=back)):
+                with quiet():
+                    s4.spin_block2interlace(backward=back)
+                h2 = nw // 2
+                mp = [0] * nw
+                if back:
+                    mp[:h2] = [2 * i for i in range(h2)]
+                    mp[h2:] = [2 * i + 1 for i in range(h2)]
+                else:
+                    mp[::2] = list(range(h2))
+                    mp[1::2] = [i + h2 for i in range(h2)]
+                iR = rng.randrange(s.rvec.nRvec)
+                for key in sorted(s._XX_R):
+                    X = s.get_R_mat(key)[iR]
+                    cmp_ = tuple(rng.randrange(3) for _ in range(X.ndim - 2))
+                    a, b = fr_mat(X[(slice(None), slice(None)) + cmp_])
+                    add(f"reorder {nw} {ints(mp)} {ratss(a)} {ratss(b)}", "exact",
+                        s4.get_R_mat(key)[iR][(slice(None), slice(None)) + cmp_], dict(case, key=key, op="spin_block2interlace", backward=back))
+                add(f"reorderc {nw} {ints(mp)} {ratss([[F(x) for x in r] for r in cen])}", "close",
+                    s4.rvec.shifts_left_red, dict(case, what="shifts after spin_block2interlace"))
+            ctx.count("corr.spin_block2interlace")
         # the harness' own rotation helper against the model
         Ure, Uim = gmat(rng, nw)
         U = to_np(Ure, Uim)
@@ -170,7 +227,18 @@ def grouped_system(rs, sizes):
     centers = np.repeat(c0, sizes, axis=0)
     with quiet():
         s = rand_system(rs, num_wann=int(sum(sizes)), nR=int(rs.randint(3, 6)), max_R=1, matrices=ALLMAT, centers=centers)
+        add_all_matrices(rs, s)
     return s
+
+
+def extra_integrators(Ef):
+    """calculators that consume the rarely used matrices (OO, GG/FF, SA, SHA, SR, SH, SHR)"""
+    from wannierberri.calculators import static as S
+    return {"ahc_OO_uIu": S.AHC(Efermi=Ef, kwargs_formula={"OO_uIu": True}),
+            "shc_ryoo": S.SHC(Efermi=Ef, kwargs_formula={"spin_current_type": "ryoo"}),
+            "shc_qiao": S.SHC(Efermi=Ef, kwargs_formula={"spin_current_type": "qiao"}),
+            "shc_simple": S.SHC(Efermi=Ef, kwargs_formula={"spin_current_type": "simple"}),
+            "quantum_metric": S.QuantumMetric_FermiSea(Efermi=Ef), "ahc_test_FF": S.AHC_test(Efermi=Ef)}
 
 
 def block_unitary(rs, sizes):
@@ -196,6 +264,11 @@ def transformed(rs, s, sizes, how):
         desc["U"] = U
     if how in ("reorder", "both"):
         p = [int(x) for x in rs.permutation(n)]
+        for _ in range(20):
+            # prefer permutations that are not involutions (p o p != id) and not the identity
+            if n < 3 or any(p[p[i]] != i for i in range(n)):
+                break
+            p = [int(x) for x in rs.permutation(n)]
         with quiet():
             s2.reorder(p)
         desc["perm"] = p
@@ -226,6 +299,7 @@ def case_run(ctx, case):
 
     def run_on(sys_):
         calcs = integrators(Ef)
+        calcs.update(extra_integrators(Ef))
         if case.get("tetra"):
             from wannierberri.calculators import static as S
             calcs["ahc_tetra"] = S.AHC(Efermi=Ef, tetra=True)
